@@ -110,7 +110,12 @@ def w_model(case):
     cov = None if case.get('cov') is None else np.array(case['cov'], dtype=float)
     c = None if case.get('dlogp') is None else \
         np.array(case['dlogp'], dtype=float).reshape(obs.shape)
-    m = popbuild.build(spec, n_ids)
+    if case.get('resize_from'):
+        # the model was used for another number of individuals before
+        m = popbuild.build(spec, case['resize_from'])
+        m.set_n_ids(n_ids)
+    else:
+        m = popbuild.build(spec, n_ids)
     viol = []
     ntr = 0
     lab = popbuild.label(spec)
@@ -401,6 +406,15 @@ def make_case(spec, n_ids, seed, with_c, variant='support'):
             obs[-1, -1] += 0.25
         else:
             obs[0, 0] = -0.3
+    elif variant == 'tiny_sigma':
+        # a tiny but valid scale: every scale parameter 1e-7, individuals within a
+        # few scales of the location
+        top = list(top)
+        names_ = popbuild.build(spec, n_ids).get_parameter_names()
+        for i_, nm in enumerate(names_):
+            if nm.lower().startswith(('std', 'log std', 'sigma')):
+                top[i_] = 1e-7
+        obs = popvals.obs_values(spec, top, n_ids, cov, seed)
     elif variant in ('near_obs', 'near_obs_ulp'):
         # an individual value next to, but not equal to, the point mass of a pooled
         # / heterogeneous dimension (relative 1e-9, or the neighbouring float)
@@ -444,6 +458,8 @@ def build(tier, seed):
             if k in ('LN', 'TG', 'P', 'H') and spec.get('centered', True):
                 elem_cases.append(make_case(spec, n_ids, seed, False, 'bad_obs'))
             elem_cases.append(make_case(spec, n_ids, seed, True, 'int'))
+            if k in ('G', 'LN', 'TG'):
+                elem_cases.append(make_case(spec, n_ids, seed, True, 'tiny_sigma'))
             if k in ('P', 'H'):
                 elem_cases.append(make_case(spec, n_ids, seed, False, 'near_obs'))
                 elem_cases.append(make_case(spec, n_ids, seed, False,
@@ -483,6 +499,19 @@ def build(tier, seed):
                  rp.Comp([rp.Cov(rp.P(1), 1), rp.G(1)])):
         for n_ids in range(1, max_ids + 1):
             comp_cases.append(make_case(spec, n_ids, seed, False, 'near_obs'))
+    # compositions holding a heterogeneous model directly, nested and behind a
+    # reduced wrapper, resized from another number of individuals
+    for spec in (rp.Comp([rp.G(1), rp.H(1)]),
+                 rp.Comp([rp.Comp([rp.H(1), rp.P(1)]), rp.LN(1)]),
+                 rp.Comp([rp.G(1), rp.Comp([rp.LN(1, False), rp.H(2)])]),
+                 rp.Red(rp.Comp([rp.H(1), rp.G(1)]), {}),
+                 rp.Comp([rp.Red(rp.H(1), {}), rp.G(1)])):
+        for a_, b_ in ((1, 2), (3, 2), (2, 3), (3, 1)):
+            if b_ > max_ids + 1:
+                continue
+            c_ = make_case(spec, b_, seed, True)
+            c_['resize_from'] = a_
+            comp_cases.append(c_)
     # nested composition
     nested = rp.Comp([rp.Comp([rp.G(1), rp.P(1)]), rp.LN(1, False)])
     for n_ids in range(1, max_ids + 1):
